@@ -78,11 +78,13 @@ Ltac suffix_cases H :=
   repeat (apply is_suffix_cons_inv in H; destruct H as [H|H]); [.. | apply is_suffix_nil_inv in H].
 
 (* every (head, tail) position of the two admissible bodies *)
+Definition cs_acts (f g : field) : list act := [ARead f; AWrite f; ARead g; AWrite g; AUnlock].
+
 Lemma body_positions (b : list act) a pc :
   b = bodyA \/ b = bodyB -> is_suffix (a :: pc) b ->
-  (a = ASaveBlk /\ exists r, pc = ASaveIdx :: ALock :: r /\ pc_in_cs pc = false) \/
-  (a = ASaveIdx /\ exists r, pc = ALock :: r) \/
-  (a = ALock /\ exists f g, f <> g /\ pc = [ARead f; AWrite f; ARead g; AWrite g; AUnlock]) \/
+  (a = ASaveBlk /\ exists f g, f <> g /\ pc = ASaveIdx :: ALock :: cs_acts f g) \/
+  (a = ASaveIdx /\ exists f g, f <> g /\ pc = ALock :: cs_acts f g) \/
+  (a = ALock /\ exists f g, f <> g /\ pc = cs_acts f g) \/
   (exists f g, f <> g /\ a = ARead f /\ pc = [AWrite f; ARead g; AWrite g; AUnlock]) \/
   (exists f g, f <> g /\ a = AWrite f /\ pc = [ARead g; AWrite g; AUnlock]) \/
   (exists g, a = ARead g /\ pc = [AWrite g; AUnlock]) \/
@@ -90,9 +92,9 @@ Lemma body_positions (b : list act) a pc :
   (a = AUnlock /\ pc = []).
 Proof.
   intros [-> | ->] H; unfold bodyA, bodyB, gen_body, accs_locked in H; simpl in H; suffix_cases H;
-    try discriminate; inversion H; subst; clear H.
-  all: try (left; split; [reflexivity|]; eexists; split; reflexivity).
-  all: try (right; left; split; [reflexivity|]; eexists; reflexivity).
+    try discriminate; inversion H; subst; clear H; unfold cs_acts.
+  all: try (left; split; [reflexivity|]; (exists FRc, FAb + exists FAb, FRc); split; [discriminate|reflexivity]).
+  all: try (right; left; split; [reflexivity|]; (exists FRc, FAb + exists FAb, FRc); split; [discriminate|reflexivity]).
   all: try (right; right; left; split; [reflexivity|]; (exists FRc, FAb + exists FAb, FRc); split; [discriminate|reflexivity]).
   all: try (right; right; right; left; (exists FRc, FAb + exists FAb, FRc); split; [discriminate|split; reflexivity]).
   all: try (right; right; right; right; left; (exists FRc, FAb + exists FAb, FRc); split; [discriminate|split; reflexivity]).
@@ -340,7 +342,7 @@ Section Pool.
         rewrite Eb0. simpl next_st.
         assert (Hwf0 : wf_w (mk_worker (WBody (a0 :: r0) b) trc tab)).
         { unfold wf_w; simpl. rewrite Eb0. split; [apply is_suffix_refl|discriminate]. }
-        assert (Hcs0 : in_cs (mk_worker (WBody (a0 :: r0) b) trc tab) = false) by exact Ecs.
+        assert (Hcs0 : in_cs (mk_worker (WBody (a0 :: r0) b) trc tab) = false) by (rewrite Eb0 in Ecs; exact Ecs).
         apply (InvC_wupd s k _ _ r (store s) (rc s) (ab s) (mutex s) (wg s) (ebuf s) I Hk); auto; try (intros ?; congruence); simpl; try lia.
     - (* WBody *)
       destruct pc as [|a pc]; [discriminate|]. destruct Hwf as [Hsuf _].
@@ -348,7 +350,7 @@ Section Pool.
       pose proof (ic_cs s I k _ Hk) as Hcs. pose proof (ic_mid s I k _ Hk) as Hmid.
       unfold in_cs, mid_ok, mid_ok_v, in_cs in *; simpl in *.
       destruct (body_positions _ a pc Hbody Hsuf) as
-        [(-> & r & -> & E)|[(-> & r & ->)|[(-> & f & g & Hfg & ->)|[(f & g & Hfg & -> & ->)|
+        [(-> & f & g & Hfg & ->)|[(-> & f & g & Hfg & ->)|[(-> & f & g & Hfg & ->)|[(f & g & Hfg & -> & ->)|
          [(f & g & Hfg & -> & ->)|[(g & -> & ->)|[(g & -> & ->)|(-> & ->)]]]]]]].
       + (* SaveBlk *)
         destruct (b_fail cur); inversion H; subst; clear H;
@@ -453,7 +455,7 @@ Section Pool.
       destruct wk as [stt trc tab]; simpl in *. destruct stt as [|pc cur|? | |]; try discriminate.
       destruct pc as [|a pc]; [discriminate|]. destruct Hwf as [Hsuf _].
       destruct (body_positions _ a pc Hbody Hsuf) as
-        [(-> & r & -> & E)|[(-> & r & ->)|[(-> & f & g & Hfg & ->)|[(f & g & Hfg & -> & ->)|
+        [(-> & f & g & Hfg & ->)|[(-> & f & g & Hfg & ->)|[(-> & f & g & Hfg & ->)|[(f & g & Hfg & -> & ->)|
          [(f & g & Hfg & -> & ->)|[(g & -> & ->)|[(g & -> & ->)|(-> & ->)]]]]]]]; simpl in Hcs; try discriminate;
       try (destruct f); try (destruct g);
       (eapply (step_worker_enabled h); [exact I|]; unfold step_worker; rewrite Hk; simpl; rewrite ?Em; reflexivity).
